@@ -195,8 +195,16 @@ pub fn rule_type(r: PluralRuleType) -> &'static str {
     }
 }
 
+/// Variable / component names as the specification writes them: `Str` of their symbols, i.e. ASCII characters as they are and
+/// every other character by the NAME of its symbol ("ié" -> "iE1").
 fn strip_prefix_name(name: &str, prefix: &str) -> String {
-    name.strip_prefix(prefix).unwrap_or(name).to_string()
+    static NON_ASCII: std::sync::OnceLock<HashMap<char, String>> = std::sync::OnceLock::new();
+    let table = NON_ASCII.get_or_init(|| {
+        let path = std::env::var("VERIF_LEX").unwrap_or_else(|_| "/verif/spec/lexemes.json".into());
+        let map: BTreeMap<String, String> = serde_json::from_str(&std::fs::read_to_string(&path).expect("lexemes.json")).expect("lexemes.json parse");
+        map.into_iter().filter_map(|(k, v)| v.chars().next().filter(|c| !c.is_ascii()).map(|c| (c, k))).collect()
+    });
+    name.strip_prefix(prefix).unwrap_or(name).chars().map(|c| table.get(&c).cloned().unwrap_or_else(|| c.to_string())).collect()
 }
 
 /// One piece of a canonical value: text pieces are merged, blocs flattened.
